@@ -194,6 +194,12 @@ class FormulaMaterializer(metaclass=FormulaMaterializerMeta):
         should_simplify = isinstance(spec, ModelSpec)
         model_specs: ModelSpecs = self._prepare_model_specs(spec)
 
+        # Evaluated and encoded factors depend on the state of the spec(s) being
+        # materialized, and so are only shared within (not between) calls.
+        self.factor_cache.clear()
+        self.encoded_cache.clear()
+        self.encoder_state_cache.clear()
+
         # Step 0: Pool all factors and transform state, ensuring consistency
         # during factor evaluation (esp. which rows get dropped).
         (
